@@ -125,7 +125,9 @@ Definition put_store (c : corr) (now : Q) (m : smsg) (eid : Z) : corr :=
       let cur' := match joined with Some _ => c_cur c1 | None => dset (c_cur c1) ref (skey ref (sm_seq m)) end in
       let c2 := with_cur (with_seg c1 (dset (c_seg c1) (sm_seq m) (key, sseq))) cur' in
       with_stat c2 (dset (c_stat c2) key (set_status ss sseq STATUS_SENDING))
-    else c1
+    else
+      (* not a segment: whatever an answered segment of an older message left under this sequence number is dropped *)
+      with_seg c1 (ddel (sm_seq m) (c_seg c1))
   else c1.
 
 (* get(response), the part before the sweep *)
